@@ -52,6 +52,7 @@ def srcAtoms : Expr → List Atom
 /-- Forget which delay input an atom names. -/
 def norm : Atom → Atom
   | .dly _ => .dly 0
+  | .loopIdx _ => .loopIdx ""
   | a => a
 
 theorem disallowed_norm (c : Cats) (a : Atom) : disallowed c (norm a) = disallowed c a := by
@@ -654,6 +655,161 @@ theorem eval_substVar (ρ : Env) (v : String) (c : Nat) : ∀ e : Expr, eval ρ 
   | .neg e => by simp [substVar, eval, evalL, eval_substVar ρ v c e]
   | .bin _ a b => by simp [substVar, eval, evalL, eval_substVar ρ v c a, eval_substVar ρ v c b]
 
+/-! ## Inside for-loops: every iteration of every (nested) delay is preserved -/
+
+/-- Meaning of a *source* expression in iteration `c` of a loop over `v`; `τ id c` is the value of
+    the delayed quantity of node `id` in that iteration. -/
+def evalSL (ρ : Env) (τ : Nat → Nat → Option Rat) (v : String) (c : Nat) : Expr → Option Rat
+  | .lit q => some q
+  | .time => some ρ.time
+  | .ref n => if n = v then some ((c : Int) : Rat) else ρ.val n 0
+  | .idx n i => (evalSL ρ τ v c i).bind fun q => (toIndex q).bind fun j => ρ.val n j
+  | .der n => ρ.val (derName n) 0
+  | .derAt n i => (evalSL ρ τ v c i).bind fun q => (toIndex q).bind fun j => ρ.val (derName n) j
+  | .neg e => (evalSL ρ τ v c e).map (fun x => -x)
+  | .bin o a b => (evalSL ρ τ v c a).bind fun x => (evalSL ρ τ v c b).bind fun y => applyBin o x y
+  | .delay id _ _ => τ id c
+  | .dsym k => ρ.val (delayName k) 0
+  | .dsymAt k i => (evalSL ρ τ v c i).bind fun q => (toIndex q).bind fun j => ρ.val (delayName k) j
+
+theorem toIndex_natCast (c : Nat) (h : 1 ≤ c) : toIndex ((c : Int) : Rat) = some c := by
+  unfold toIndex
+  have h1 : ((c : Int) : Rat).den = 1 := Rat.den_intCast _
+  have h2 : ((c : Int) : Rat).num = (c : Int) := Rat.num_intCast _
+  rw [h1, h2]
+  have hp : (c : Int) > 0 := by omega
+  rw [if_pos ⟨rfl, hp⟩]
+  simp
+
+/-- The input of a recorded argument carries the node's value in every iteration: element `c` of
+    the vector input for a loop-indexed delay, the scalar input otherwise. -/
+def LoopCons (ρ : Env) (τ : Nat → Nat → Option Rat) (n : Nat) (a : DArg) : Prop :=
+  ∀ c, 1 ≤ c → c ≤ n →
+    (if a.vec then ρ.val (delayName a.k) c = τ a.id c else ρ.val (delayName a.k) 0 = τ a.id c)
+
+/-- What is recorded for one source node of a loop body. -/
+def PreservedL (ρ : Env) (τ : Nat → Nat → Option Rat) (v : String) (n : Nat) (a : DArg) (nd : DNode) : Prop :=
+  a.id = nd.1 ∧
+  (∀ c, 1 ≤ c → c ≤ n → evalL ρ v c a.dur = evalSL ρ τ v c nd.2.2) ∧
+  (if a.vec then a.exprs.map (eval ρ) = (List.range n).map (fun j => evalSL ρ τ v (j + 1) nd.2.1)
+   else ∃ x, a.exprs = [x] ∧ ∀ c, 1 ≤ c → c ≤ n → evalL ρ v c x = evalSL ρ τ v c nd.2.1)
+
+theorem tr_semL (ρ : Env) (τ : Nat → Nat → Option Rat) (v : String) (n : Nat) : ∀ (e : Expr) (s : St),
+    (∀ a ∈ newArgs (some (v, n)) e s, LoopCons ρ τ n a) →
+    (∀ c, 1 ≤ c → c ≤ n → evalL ρ v c (tr (some (v, n)) e s).1 = evalSL ρ τ v c e) ∧
+      ∀ a ∈ newArgs (some (v, n)) e s, ∃ nd ∈ delayNodes e, PreservedL ρ τ v n a nd
+  | .lit _, s, _ => by simp [tr, evalL, evalSL, newArgs]
+  | .time, s, _ => by simp [tr, evalL, evalSL, newArgs]
+  | .ref _, s, _ => by simp [tr, evalL, evalSL, newArgs]
+  | .der _, s, _ => by simp [tr, evalL, evalSL, newArgs]
+  | .dsym _, s, _ => by simp [tr, evalL, evalSL, newArgs]
+  | .idx m i, s, h => by
+    have hn : newArgs (some (v, n)) (.idx m i) s = newArgs (some (v, n)) i s := by simp [newArgs, tr]
+    obtain ⟨h1, h2⟩ := tr_semL ρ τ v n i s (by simpa [hn] using h)
+    exact ⟨fun c hc1 hc2 => by simp [tr, evalL, evalSL, h1 c hc1 hc2], by simpa [hn, delayNodes] using h2⟩
+  | .derAt m i, s, h => by
+    have hn : newArgs (some (v, n)) (.derAt m i) s = newArgs (some (v, n)) i s := by simp [newArgs, tr]
+    obtain ⟨h1, h2⟩ := tr_semL ρ τ v n i s (by simpa [hn] using h)
+    exact ⟨fun c hc1 hc2 => by simp [tr, evalL, evalSL, h1 c hc1 hc2], by simpa [hn, delayNodes] using h2⟩
+  | .dsymAt m i, s, h => by
+    have hn : newArgs (some (v, n)) (.dsymAt m i) s = newArgs (some (v, n)) i s := by simp [newArgs, tr]
+    obtain ⟨h1, h2⟩ := tr_semL ρ τ v n i s (by simpa [hn] using h)
+    exact ⟨fun c hc1 hc2 => by simp [tr, evalL, evalSL, h1 c hc1 hc2], by simpa [hn, delayNodes] using h2⟩
+  | .neg e, s, h => by
+    have hn : newArgs (some (v, n)) (.neg e) s = newArgs (some (v, n)) e s := by simp [newArgs, tr]
+    obtain ⟨h1, h2⟩ := tr_semL ρ τ v n e s (by simpa [hn] using h)
+    exact ⟨fun c hc1 hc2 => by simp [tr, evalL, evalSL, h1 c hc1 hc2], by simpa [hn, delayNodes] using h2⟩
+  | .bin o a b, s, h => by
+    rw [newArgs_bin] at h
+    obtain ⟨a1, a2⟩ := tr_semL ρ τ v n a s (fun x hx => h x (List.mem_append_left _ hx))
+    obtain ⟨b1, b2⟩ := tr_semL ρ τ v n b (tr (some (v, n)) a s).2 (fun x hx => h x (List.mem_append_right _ hx))
+    refine ⟨fun c hc1 hc2 => by simp [tr, evalL, evalSL, a1 c hc1 hc2, b1 c hc1 hc2], ?_⟩
+    intro x hx
+    rw [newArgs_bin] at hx
+    rcases List.mem_append.mp hx with hx | hx
+    · obtain ⟨nd, hnd, hp⟩ := a2 x hx
+      exact ⟨nd, by simp [delayNodes, hnd], hp⟩
+    · obtain ⟨nd, hnd, hp⟩ := b2 x hx
+      exact ⟨nd, by simp [delayNodes, hnd], hp⟩
+  | .delay id a d, s, h => by
+    rw [newArgs_delay] at h
+    obtain ⟨a1, a2⟩ := tr_semL ρ τ v n a s (fun x hx => h x (by simp [hx]))
+    obtain ⟨d1, d2⟩ := tr_semL ρ τ v n d (tr (some (v, n)) a s).2 (fun x hx => h x (by simp [hx]))
+    have hself := h (newArg (some (v, n)) (tr (some (v, n)) d (tr (some (v, n)) a s).2).2.next id
+      (tr (some (v, n)) a s).1 (tr (some (v, n)) d (tr (some (v, n)) a s).2).1) (by simp)
+    cases hc : mentionsIndexed v (tr (some (v, n)) a s).1 with
+    | true =>
+      have hs : ∀ c, 1 ≤ c → c ≤ n →
+          ρ.val (delayName (tr (some (v, n)) d (tr (some (v, n)) a s).2).2.next) c = τ id c := by
+        intro c h1 h2; simpa [LoopCons, newArg, hc] using hself c h1 h2
+      refine ⟨fun c hc1 hc2 => ?_, ?_⟩
+      · simp [tr, newSym, hc, evalL, evalSL, toIndex_natCast c hc1, hs c hc1 hc2]
+      · intro x hx
+        rw [newArgs_delay] at hx
+        rcases List.mem_append.mp hx with hx | hx
+        · rcases List.mem_append.mp hx with hx | hx
+          · obtain ⟨nd, hnd, hp⟩ := a2 x hx
+            exact ⟨nd, by simp [delayNodes, hnd], hp⟩
+          · obtain ⟨nd, hnd, hp⟩ := d2 x hx
+            exact ⟨nd, by simp [delayNodes, hnd], hp⟩
+        · rw [List.mem_singleton.mp hx]
+          refine ⟨(id, a, d), by simp [delayNodes], ?_⟩
+          refine ⟨by simp [newArg, hc], fun c h1 h2 => by simpa [newArg, hc] using d1 c h1 h2, ?_⟩
+          simp only [newArg, hc, if_true, List.map_map]
+          apply List.map_congr_left
+          intro j hj
+          have hj' : j < n := List.mem_range.mp hj
+          simp only [Function.comp_apply, eval_substVar]
+          exact a1 (j + 1) (by omega) (by omega)
+    | false =>
+      have hs : ∀ c, 1 ≤ c → c ≤ n →
+          ρ.val (delayName (tr (some (v, n)) d (tr (some (v, n)) a s).2).2.next) 0 = τ id c := by
+        intro c h1 h2; simpa [LoopCons, newArg, hc] using hself c h1 h2
+      refine ⟨fun c hc1 hc2 => ?_, ?_⟩
+      · simp [tr, newSym, hc, evalL, evalSL, hs c hc1 hc2]
+      · intro x hx
+        rw [newArgs_delay] at hx
+        rcases List.mem_append.mp hx with hx | hx
+        · rcases List.mem_append.mp hx with hx | hx
+          · obtain ⟨nd, hnd, hp⟩ := a2 x hx
+            exact ⟨nd, by simp [delayNodes, hnd], hp⟩
+          · obtain ⟨nd, hnd, hp⟩ := d2 x hx
+            exact ⟨nd, by simp [delayNodes, hnd], hp⟩
+        · rw [List.mem_singleton.mp hx]
+          refine ⟨(id, a, d), by simp [delayNodes], ?_⟩
+          refine ⟨by simp [newArg, hc], fun c h1 h2 => by simpa [newArg, hc] using d1 c h1 h2, ?_⟩
+          simp only [newArg, hc]
+          exact ⟨_, rfl, a1⟩
+
+/-- The same for the equations of a loop body. -/
+theorem pairs_semL (ρ : Env) (τ : Nat → Nat → Option Rat) (v : String) (n : Nat) :
+    ∀ (body : List (Expr × Expr)) (s : St),
+    (∀ a ∈ pairArgs (some (v, n)) body s, LoopCons ρ τ n a) →
+    (∀ c, 1 ≤ c → c ≤ n →
+      (trPairs (some (v, n)) body s).1.map (fun p => (evalL ρ v c p.1, evalL ρ v c p.2)) =
+        body.map (fun p => (evalSL ρ τ v c p.1, evalSL ρ τ v c p.2))) ∧
+      ∀ a ∈ pairArgs (some (v, n)) body s, ∃ nd ∈ pairNodes body, PreservedL ρ τ v n a nd
+  | [], s, _ => by simp [trPairs, pairArgs]
+  | (l, r) :: rest, s, h => by
+    rw [pairArgs_cons] at h
+    obtain ⟨l1, l2⟩ := tr_semL ρ τ v n l s (fun x hx => h x (by simp [hx]))
+    obtain ⟨r1, r2⟩ := tr_semL ρ τ v n r (tr (some (v, n)) l s).2 (fun x hx => h x (by simp [hx]))
+    obtain ⟨s1, s2⟩ := pairs_semL ρ τ v n rest (tr (some (v, n)) r (tr (some (v, n)) l s).2).2
+      (fun x hx => h x (by simp [hx]))
+    refine ⟨fun c hc1 hc2 => by simp [trPairs, l1 c hc1 hc2, r1 c hc1 hc2, s1 c hc1 hc2], ?_⟩
+    intro x hx
+    rw [pairArgs_cons] at hx
+    rcases List.mem_append.mp hx with hx | hx
+    · rcases List.mem_append.mp hx with hx | hx
+      · obtain ⟨nd, hnd, hp⟩ := l2 x hx
+        exact ⟨nd, by simp [pairNodes, hnd], hp⟩
+      · obtain ⟨nd, hnd, hp⟩ := r2 x hx
+        exact ⟨nd, by simp [pairNodes, hnd], hp⟩
+    · obtain ⟨nd, hnd, hp⟩ := s2 x hx
+      exact ⟨nd, by
+        simp only [pairNodes, List.flatMap_cons, List.mem_append]
+        exact Or.inr hnd, hp⟩
+
 /-- An expression without delay nodes is translated to itself. -/
 theorem tr_id (lp : Option (String × Nat)) : ∀ (e : Expr) (s : St), delayNodes e = [] → tr lp e s = (e, s)
   | .lit _, s, _ => by simp [tr]
@@ -669,6 +825,198 @@ theorem tr_id (lp : Option (String × Nat)) : ∀ (e : Expr) (s : St), delayNode
     simp only [delayNodes, List.append_eq_nil_iff] at h
     simp [tr, tr_id lp a s h.1, tr_id lp b s h.2]
   | .delay _ _ _, s, h => by simp [delayNodes] at h
+
+/-! ## The duration check as implemented, for every source (loop variables included) -/
+
+mutual
+/-- Source-level: will the translated expression contain a symbol registered as loop-indexed? -/
+def vecS (v : String) : Expr → Bool
+  | .lit _ => false
+  | .time => false
+  | .ref _ => false
+  | .idx _ i => mvS v i
+  | .der _ => false
+  | .derAt _ i => mvS v i
+  | .neg e => vecS v e
+  | .bin _ a b => vecS v a || vecS v b
+  | .delay _ a _ => vecS v a
+  | .dsym _ => false
+  | .dsymAt _ i => mvS v i
+/-- Source-level: will the translated expression mention the loop variable? -/
+def mvS (v : String) : Expr → Bool
+  | .lit _ => false
+  | .time => false
+  | .ref n => n = v
+  | .idx _ i => mvS v i
+  | .der _ => false
+  | .derAt _ i => mvS v i
+  | .neg e => mvS v e
+  | .bin _ a b => mvS v a || mvS v b
+  | .delay _ a _ => vecS v a
+  | .dsym _ => false
+  | .dsymAt _ i => mvS v i
+end
+
+theorem tr_flags (v : String) (n : Nat) : ∀ (e : Expr) (s : St),
+    mentionsIndexed v (tr (some (v, n)) e s).1 = vecS v e ∧ mentionsVar v (tr (some (v, n)) e s).1 = mvS v e
+  | .lit _, s => by simp [tr, mentionsIndexed, mentionsVar, vecS, mvS]
+  | .time, s => by simp [tr, mentionsIndexed, mentionsVar, vecS, mvS]
+  | .ref _, s => by simp [tr, mentionsIndexed, mentionsVar, vecS, mvS]
+  | .der _, s => by simp [tr, mentionsIndexed, mentionsVar, vecS, mvS]
+  | .dsym _, s => by simp [tr, mentionsIndexed, mentionsVar, vecS, mvS]
+  | .idx _ i, s => by simp [tr, mentionsIndexed, mentionsVar, vecS, mvS, (tr_flags v n i s).2]
+  | .derAt _ i, s => by simp [tr, mentionsIndexed, mentionsVar, vecS, mvS, (tr_flags v n i s).2]
+  | .dsymAt _ i, s => by simp [tr, mentionsIndexed, mentionsVar, vecS, mvS, (tr_flags v n i s).2]
+  | .neg e, s => by simp [tr, mentionsIndexed, mentionsVar, vecS, mvS, (tr_flags v n e s).1, (tr_flags v n e s).2]
+  | .bin _ a b, s => by
+    simp [tr, mentionsIndexed, mentionsVar, vecS, mvS, (tr_flags v n a s).1, (tr_flags v n a s).2,
+      (tr_flags v n b (tr (some (v, n)) a s).2).1, (tr_flags v n b (tr (some (v, n)) a s).2).2]
+  | .delay _ a d, s => by
+    have ha := (tr_flags v n a s).1
+    cases hc : vecS v a with
+    | true => rw [hc] at ha; simp [tr, newSym, ha, mentionsIndexed, mentionsVar, vecS, mvS, hc]
+    | false => rw [hc] at ha; simp [tr, newSym, ha, mentionsIndexed, mentionsVar, vecS, mvS, hc]
+
+/-- What the duration check sees of a *source* duration in loop context `lv`: references through
+    the loop variable are loop-local placeholders, a nested `delay` is a delay input — or a
+    placeholder when it is loop-indexed. -/
+def srcAtomsL (lv : Option String) : Expr → List Atom
+  | .lit _ => []
+  | .time => [.time]
+  | .ref n => if lv = some n then [.loopVar] else [.var n]
+  | .idx n i =>
+    let ai := srcAtomsL lv i
+    if .loopVar ∈ ai then [.loopIdx n] else .var n :: ai
+  | .der n => [.der n]
+  | .derAt n i =>
+    let ai := srcAtomsL lv i
+    if .loopVar ∈ ai then [.loopIdx (derName n)] else .der n :: ai
+  | .neg e => srcAtomsL lv e
+  | .bin _ a b => srcAtomsL lv a ++ srcAtomsL lv b
+  | .delay id a _ =>
+    match lv with
+    | some v => if vecS v a then [.loopIdx ""] else [.dly id]
+    | none => [.dly id]
+  | .dsym k => [.dly k]
+  | .dsymAt k i =>
+    let ai := srcAtomsL lv i
+    if .loopVar ∈ ai then [.loopIdx (delayName k)] else .dly k :: ai
+
+theorem loopVar_mem_iff_of_norm_eq {l₁ l₂ : List Atom} (h : l₁.map norm = l₂.map norm) :
+    Atom.loopVar ∈ l₁ ↔ Atom.loopVar ∈ l₂ := by
+  have e : ∀ l : List Atom, Atom.loopVar ∈ l ↔ Atom.loopVar ∈ l.map norm := by
+    intro l
+    constructor
+    · intro hm; exact List.mem_map.mpr ⟨_, hm, rfl⟩
+    · intro hm
+      obtain ⟨y, hy, hn⟩ := List.mem_map.mp hm
+      cases y <;> simp [norm] at hn
+      exact hy
+  rw [e l₁, e l₂, h]
+
+theorem atoms_trL (lp : Option (String × Nat)) : ∀ (e : Expr) (s : St),
+    (atoms (lp.map (·.1)) (tr lp e s).1).map norm = (srcAtomsL (lp.map (·.1)) e).map norm
+  | .lit _, s => by simp [tr, atoms, srcAtomsL]
+  | .time, s => by simp [tr, atoms, srcAtomsL]
+  | .dsym _, s => by simp [tr, atoms, srcAtomsL]
+  | .der _, s => by simp [tr, atoms, srcAtomsL]
+  | .ref m, s => by simp [tr, atoms, srcAtomsL]
+  | .idx m i, s => by
+    have ih := atoms_trL lp i s
+    have hl := loopVar_mem_iff_of_norm_eq ih
+    by_cases hc : Atom.loopVar ∈ srcAtomsL (lp.map (·.1)) i
+    · simp [tr, atoms, srcAtomsL, hc, hl.mpr hc, norm]
+    · have hc' : Atom.loopVar ∉ atoms (lp.map (·.1)) (tr lp i s).1 := fun h => hc (hl.mp h)
+      simp [tr, atoms, srcAtomsL, hc, hc', ih, norm]
+  | .derAt m i, s => by
+    have ih := atoms_trL lp i s
+    have hl := loopVar_mem_iff_of_norm_eq ih
+    by_cases hc : Atom.loopVar ∈ srcAtomsL (lp.map (·.1)) i
+    · simp [tr, atoms, srcAtomsL, hc, hl.mpr hc, norm]
+    · have hc' : Atom.loopVar ∉ atoms (lp.map (·.1)) (tr lp i s).1 := fun h => hc (hl.mp h)
+      simp [tr, atoms, srcAtomsL, hc, hc', ih, norm]
+  | .dsymAt k i, s => by
+    have ih := atoms_trL lp i s
+    have hl := loopVar_mem_iff_of_norm_eq ih
+    by_cases hc : Atom.loopVar ∈ srcAtomsL (lp.map (·.1)) i
+    · simp [tr, atoms, srcAtomsL, hc, hl.mpr hc, norm]
+    · have hc' : Atom.loopVar ∉ atoms (lp.map (·.1)) (tr lp i s).1 := fun h => hc (hl.mp h)
+      simp [tr, atoms, srcAtomsL, hc, hc', ih, norm]
+  | .neg e, s => by simpa [tr, atoms, srcAtomsL] using atoms_trL lp e s
+  | .bin _ a b, s => by simp [tr, atoms, srcAtomsL, atoms_trL lp a s, atoms_trL lp b (tr lp a s).2]
+  | .delay id a d, s => by
+    cases lp with
+    | none => simp [tr, newSym, atoms, srcAtomsL, norm]
+    | some p =>
+      obtain ⟨v, n⟩ := p
+      have ha := (tr_flags v n a s).1
+      cases hc : vecS v a with
+      | true => rw [hc] at ha; simp [tr, newSym, ha, atoms, srcAtomsL, hc, norm]
+      | false => rw [hc] at ha; simp [tr, newSym, ha, atoms, srcAtomsL, hc, norm]
+
+/-- A delay node together with the loop variable of the for-loop it stands in. -/
+abbrev LNode := Option String × DNode
+
+def srcKeyL (c : Cats) (p : LNode) : Bool := (srcAtomsL p.1 p.2.2.2).any (disallowed c)
+
+def eqNodesL : Equation → List LNode
+  | .eq l r => (delayNodes l ++ delayNodes r).map (fun nd => (none, nd))
+  | .forEq v _ body => (pairNodes body).map (fun nd => (some v, nd))
+
+def allNodesL (ieqs eqs : List Equation) : List LNode := ieqs.flatMap eqNodesL ++ eqs.flatMap eqNodesL
+
+theorem durKey_newArgL (c : Cats) (lp : Option (String × Nat)) (k id : Nat) (a' : Expr) (d : Expr) (s : St) :
+    durKey c (newArg lp k id a' (tr lp d s).1) = srcKeyL c (lp.map (·.1), (id, a', d)) := by
+  simp only [durKey, srcKeyL, newArg_lv, newArg_dur]
+  exact any_disallowed_of_norm_eq c (atoms_trL lp d s)
+
+theorem durs_trL (c : Cats) (lp : Option (String × Nat)) : ∀ (e : Expr) (s : St),
+    (newArgs lp e s).map (durKey c) = (delayNodes e).map (fun nd => srcKeyL c (lp.map (·.1), nd))
+  | .lit _, s => by simp [newArgs, tr, delayNodes]
+  | .time, s => by simp [newArgs, tr, delayNodes]
+  | .ref _, s => by simp [newArgs, tr, delayNodes]
+  | .dsym _, s => by simp [newArgs, tr, delayNodes]
+  | .der _, s => by simp [newArgs, tr, delayNodes]
+  | .idx _ i, s => by simpa [newArgs, tr, delayNodes] using durs_trL c lp i s
+  | .dsymAt _ i, s => by simpa [newArgs, tr, delayNodes] using durs_trL c lp i s
+  | .derAt _ i, s => by simpa [newArgs, tr, delayNodes] using durs_trL c lp i s
+  | .neg e, s => by simpa [newArgs, tr, delayNodes] using durs_trL c lp e s
+  | .bin o a b, s => by simp [newArgs_bin, delayNodes, durs_trL c lp a s, durs_trL c lp b (tr lp a s).2]
+  | .delay id a d, s => by
+    simp only [newArgs_delay, delayNodes, List.map_append, durs_trL c lp a s, durs_trL c lp d (tr lp a s).2,
+      List.map_cons, List.map_nil]
+    rw [durKey_newArgL c lp _ id _ d _]
+    rfl
+
+theorem durs_pairsL (c : Cats) (lp : Option (String × Nat)) : ∀ (body : List (Expr × Expr)) (s : St),
+    (pairArgs lp body s).map (durKey c) = (pairNodes body).map (fun nd => srcKeyL c (lp.map (·.1), nd))
+  | [], s => by simp [pairArgs, trPairs, pairNodes]
+  | (l, r) :: rest, s => by
+    simp only [pairArgs_cons, List.map_append, durs_trL c lp l s, durs_trL c lp r (tr lp l s).2,
+      durs_pairsL c lp rest (tr lp r (tr lp l s).2).2]
+    simp [pairNodes, List.flatMap_cons]
+
+theorem durs_eqL (c : Cats) : ∀ (q : Equation) (s : St),
+    (eqArgs q s).map (durKey c) = (eqNodesL q).map (srcKeyL c)
+  | .eq l r, s => by
+    have : eqArgs (.eq l r) s = newArgs none l s ++ newArgs none r (tr none l s).2 := by
+      have : (trEq (.eq l r) s).2.args = s.args ++ (newArgs none l s ++ newArgs none r (tr none l s).2) := by
+        simp [trEq, tr_args none r, tr_args none l]
+      simp [eqArgs, this]
+    simp [this, durs_trL c none l s, durs_trL c none r (tr none l s).2, eqNodesL, Function.comp_def]
+  | .forEq v n body, s => by
+    have : eqArgs (.forEq v n body) s = pairArgs (some (v, n)) body s := by
+      simp [eqArgs, pairArgs, trEq]
+    simp [this, durs_pairsL c (some (v, n)) body s, eqNodesL, Function.comp_def]
+
+theorem durs_eqsL (c : Cats) : ∀ (qs : List Equation) (s : St),
+    (eqsArgs qs s).map (durKey c) = (qs.flatMap eqNodesL).map (srcKeyL c)
+  | [], s => by simp [eqsArgs, trEqs]
+  | q :: qs, s => by simp [eqsArgs_cons, durs_eqL c q s, durs_eqsL c qs (trEq q s).2, List.flatMap_cons]
+
+theorem durs_translateL (c : Cats) (ieqs eqs : List Equation) :
+    (translate ieqs eqs).args.map (durKey c) = (allNodesL ieqs eqs).map (srcKeyL c) := by
+  rw [translate_args, List.map_append, durs_eqsL c ieqs _, durs_eqsL c eqs _, allNodesL, List.map_append]
 
 /-! ## Substituting simplification passes keep the verdict of the duration check -/
 
